@@ -81,7 +81,7 @@ def run_gen(case, bus, ex):
                 continue
         bus.judge("finite", 0.0 if np.all(np.isfinite(u)) else 1.0, 0.5, sig, witness=winfo)
         u2 = np.asarray(gen(N, key=key))
-        bus.judge("deterministic", 0.0 if np.array_equal(u, u2) else 1.0, 0.5, sig + ("same key",), witness=winfo)
+        bus.judge("deterministic", 0.0 if np.array_equal(u, u2, equal_nan=True) else 1.0, 0.5, sig + ("same key",), witness=winfo)
         if not ok_shape or not np.all(np.isfinite(u)):
             continue
         kw = spec.get("kw", {})
@@ -130,7 +130,9 @@ def run_gen(case, bus, ex):
             with np.errstate(divide="ignore"):
                 shape_fn = np.where(kk == 0, 1.0, kk ** (-kw.get("powerlaw_exponent", 3.0) / 2)) if n == "GaussianRandomField" else np.exp(-kw.get("intensity", 0.001) * kk ** 2)
             m = (kk > 0) & ~G.nyquist_mask(G.kint_full(D, N), N)
-            err = float(np.max(np.abs(np.abs(gh[m]) - np.abs(wh[m]) * shape_fn[m]) / (np.max(np.abs(wh)) * shape_fn[m])))
+            # absolute accuracy relative to the largest white-noise coefficient everywhere, relative accuracy of the shaping factor where it is not tiny
+            dev = np.abs(np.abs(gh[m]) - np.abs(wh[m]) * shape_fn[m]) / np.max(np.abs(wh))
+            err = float(np.max(dev / (shape_fn[m] + 1e-3)))
             if kw.get("zero_mean", True):
                 err = max(err, abs(gh[(0,) * D]) / np.max(np.abs(wh)))
             else:
